@@ -77,7 +77,10 @@ def dtlz_cases(draw, family):
         dist = [0.5] * k      # the Pareto-optimal slice
     else:
         dist = draw(st.lists(unit, min_size=k, max_size=k))
-    return {"family": family, "m": m, "x": pos + dist, "vec": draw(VEC)}
+    case = {"family": family, "m": m, "x": pos + dist, "vec": draw(VEC)}
+    if draw(st.integers(0, 3)) == 0:
+        case["before"] = [draw(unit) for _ in range(n)]
+    return case
 
 
 def g1(xm):
@@ -95,7 +98,17 @@ def check_dtlz(case):
     k = n - m + 1
     with guard("dtlz"):
         prob = bench(fam, dimension=n, m=m)
-        f = evaluate_at("dtlz", prob, x, case.get("vec"))
+        if case.get("before"):
+            # the same Individual object was evaluated at another point before and then moved IN PLACE (coordinate
+            # assignment, as position updates and parameter sweeps do): its objectives must be those of the new point
+            from artap.individual import Individual
+            ind0 = Individual(mk_vec(case["before"], case.get("vec")))
+            prob.evaluate(ind0)
+            for i_, v_ in enumerate(x):
+                ind0.vector[i_] = v_
+            f = prob.evaluate(ind0)
+        else:
+            f = evaluate_at("dtlz", prob, x, case.get("vec"))
     f = [float(v) for v in f]
     if len(f) != m:
         raise Violation("dtlz", "%s:objective-count" % fam, "%d objectives returned for m=%d" % (len(f), m))
@@ -118,7 +131,8 @@ def check_dtlz(case):
     # for DTLZ4 the position variables enter as x^100: values below ~0.9 all act like 0
     vals = [p for p in pos if p != 0.5]
     nt = len(set(vals)) >= 2 or (m == 2 and len(vals) == 1)
-    return {"nt": nt, "classes": [fam, "m%d" % m, "pareto-slice" if on_slice else "off-slice", case.get("vec") or "list"]}
+    return {"nt": nt, "classes": [fam, "m%d" % m, "pareto-slice" if on_slice else "off-slice", case.get("vec") or "list"] + (
+        ["moved-in-place"] if case.get("before") else [])}
 
 
 @st.composite
@@ -170,9 +184,75 @@ def check_biobj(case):
     return {"nt": x[0] not in (0.1, 1.0), "classes": ["biobjective"]}
 
 
+# ---------------------------------------------------------------- one problem object, several evaluating threads
+
+@st.composite
+def concurrent_cases(draw):
+    fam = draw(st.sampled_from(["ZDT1", "ZDT1", "DTLZI", "DTLZII", "DTLZIII", "DTLZIV", "BiObjectiveTestProblem"]))
+    return {"family": fam, "m": draw(st.integers(2, 4)), "threads": draw(st.integers(2, 4)),
+            "seed": draw(st.integers(0, 2 ** 31))}
+
+
+def check_concurrent(case):
+    """the parallel evaluator hands one problem object to several worker threads: every thread must get the objectives
+    of ITS point (compared with a single-threaded pass over the same points)"""
+    import sys
+    import random as _r
+    import threading
+    from artap.individual import Individual
+    fam = case["family"]
+    rng = _r.Random(case["seed"])
+    with guard("concurrent"):
+        if fam.startswith("DTLZ"):
+            m = case["m"]
+            k = 5 if fam == "DTLZI" else 10
+            n = m + k - 1
+            prob = bench(fam, dimension=n, m=m)
+            mk = lambda: [rng.random() for _ in range(n)]
+        elif fam == "ZDT1":
+            prob = bench("ZDT1")
+            mk = lambda: [rng.random() for _ in range(30)]
+        else:
+            prob = bench("BiObjectiveTestProblem")
+            mk = lambda: [0.1 + 0.9 * rng.random(), 5.0 * rng.random()]
+    per = 120
+    pts = [[mk() for _ in range(per)] for _ in range(case["threads"])]
+    with guard("concurrent"):
+        want = [[[float(v) for v in prob.evaluate(Individual(list(x)))] for x in row] for row in pts]
+    got = [[None] * per for _ in pts]
+    errs = []
+
+    def work(t):
+        try:
+            for j, x in enumerate(pts[t]):
+                got[t][j] = [float(v) for v in prob.evaluate(Individual(list(x)))]
+        except BaseException as e:  # noqa
+            errs.append(e)
+    old = sys.getswitchinterval()
+    sys.setswitchinterval(1e-6)
+    try:
+        ths = [threading.Thread(target=work, args=(t,)) for t in range(len(pts))]
+        for th in ths:
+            th.start()
+        for th in ths:
+            th.join()
+    finally:
+        sys.setswitchinterval(old)
+    if errs:
+        raise Violation("concurrent", "%s:raises-under-threads" % fam, "%s raised %r when evaluated from %d threads" % (
+            fam, errs[0], len(pts)))
+    for t in range(len(pts)):
+        for j in range(per):
+            if got[t][j] != want[t][j]:
+                raise Violation("concurrent", "%s:other-threads-leak-in" % fam, "%s evaluated from %d threads: point %r got "
+                                "%r, single-threaded %r" % (fam, len(pts), pts[t][j], got[t][j], want[t][j]))
+    return {"nt": True, "classes": [fam, "threads%d" % len(pts)]}
+
+
 CLAUSES = [
     Clause("dtlz1", dtlz_cases("DTLZI"), check_dtlz, quick=1500, thorough=20000),
     Clause("dtlz234", dtlz_cases("DTLZ234"), check_dtlz, quick=4500, thorough=60000, quick_shards=3),
     Clause("zdt1", zdt_cases(), check_zdt1, quick=1500, thorough=20000),
     Clause("biobjective", biobj_cases(), check_biobj, quick=1500, thorough=20000),
+    Clause("concurrent", concurrent_cases(), check_concurrent, quick=60, thorough=600, quick_shards=2),
 ]
